@@ -9,6 +9,12 @@ task executions, joins and spurious wake-ups, every choice `notify` makes.  The 
 statement skeletons and guards extracted from /repo's `ThreadPool.cc` (`Generated/Monitor.lean`);
 `Proofs/TPoolTie.lean` pins them to the skeleton the proofs are about.
 
+Tasks may depend on one another: task ids of kind `waits` block inside `task()` until the *gate* is open, ids of
+kind `opens` (and the caller operation `open`) open it (`Model/TPool.lean`, `TKind`).  A program of that shape
+can park workers for good, so the two "nobody is left behind" theorems name exactly who may be left:
+workers inside a waiting task while the gate is closed (and a `stop()` joining such a worker).  With plain
+tasks only, or once the gate is open, they are the unconditional statements (`…_plain`).
+
 Ghost vocabulary: a task is `(serial, id)` with `serial` = its rank among the accepted tasks;
 `acceptedOf`/`tookOf`/`execOf` = the tasks pushed by `run()` / popped by `take()` / started by a worker,
 in the order of these events.
@@ -16,41 +22,41 @@ in the order of these events.
 namespace MuduoVerif.C15
 open MuduoVerif.Monitor
 
-variable {n maxq : Nat} {prog : Nat → List POp} {sched : List Nat} {s : PState}
+variable {n maxq : Nat} {kind : Nat → TKind} {prog : Nat → List POp} {sched : List Nat} {s : PState}
 
 /-- no task is started twice -/
-theorem at_most_once (hr : PReach (pinit n maxq prog sched) s) : (execOf s.log).Nodup :=
-  (pinv_reach (pinv_init n maxq prog sched) hr).b.execNodup
+theorem at_most_once (hr : PReach (pinit n maxq kind prog sched) s) : (execOf s.log).Nodup :=
+  (pinv_reach (pinv_init n maxq kind prog sched) hr).b.execNodup
 
 /-- accepted tasks are pairwise different objects (their serial numbers are 0, 1, 2, …), so
 `at_most_once` is about task instances, not about ids -/
-theorem accepted_distinct (hr : PReach (pinit n maxq prog sched) s) :
+theorem accepted_distinct (hr : PReach (pinit n maxq kind prog sched) s) :
     (acceptedOf s.log).map (·.1) = List.range s.nacc :=
-  (pinv_reach (pinv_init n maxq prog sched) hr).b.serial
+  (pinv_reach (pinv_init n maxq kind prog sched) hr).b.serial
 
 /-- tasks are taken up in the order they were accepted: what `take()` removed so far, followed by what
 is still queued, is the list of accepted tasks -/
-theorem fifo_takeup (hr : PReach (pinit n maxq prog sched) s) : tookOf s.log ++ s.q = acceptedOf s.log :=
-  (pinv_reach (pinv_init n maxq prog sched) hr).b.fifo
+theorem fifo_takeup (hr : PReach (pinit n maxq kind prog sched) s) : tookOf s.log ++ s.q = acceptedOf s.log :=
+  (pinv_reach (pinv_init n maxq kind prog sched) hr).b.fifo
 
 /-- only accepted tasks are started, and only after `take()` handed them out -/
-theorem started_were_taken (hr : PReach (pinit n maxq prog sched) s) (x : Task) (hx : x ∈ execOf s.log) :
+theorem started_were_taken (hr : PReach (pinit n maxq kind prog sched) s) (x : Task) (hx : x ∈ execOf s.log) :
     x ∈ tookOf s.log ∧ x ∈ acceptedOf s.log := by
-  have h := pinv_reach (pinv_init n maxq prog sched) hr
+  have h := pinv_reach (pinv_init n maxq kind prog sched) hr
   have h1 := (h.b.execTook x hx).1
   exact ⟨h1, by rw [← h.b.fifo]; exact List.mem_append_left _ h1⟩
 
 /-- with a maximum queue size the queue never exceeds it -/
-theorem bounded (hr : PReach (pinit n maxq prog sched) s) (hm : 0 < maxq) : s.q.length ≤ maxq := by
-  have h := pinv_reach (pinv_init n maxq prog sched) hr
+theorem bounded (hr : PReach (pinit n maxq kind prog sched) s) (hm : 0 < maxq) : s.q.length ≤ maxq := by
+  have h := pinv_reach (pinv_init n maxq kind prog sched) hr
   have hc := (preach_const hr).2
   have : s.maxq = maxq := hc
   rw [← this]; exact h.a.bnd (by rw [this]; exact hm)
 
 /-- tasks are executed on pool threads — by the caller itself exactly when the pool has no threads -/
-theorem on_pool_thread (hr : PReach (pinit n maxq prog sched) s) :
+theorem on_pool_thread (hr : PReach (pinit n maxq kind prog sched) s) :
     (∀ w x, PEv.exec w x ∈ s.log → 1 ≤ w ∧ w ≤ n) ∧ (∀ t id, PEv.inl t id ∈ s.log → n = 0) := by
-  have h := pinv_reach (pinv_init n maxq prog sched) hr
+  have h := pinv_reach (pinv_init n maxq kind prog sched) hr
   have hn : s.n = n := (preach_const hr).1
   constructor
   · intro w x hx; have := h.c.place _ hx; rw [hn] at this; exact this
@@ -58,16 +64,37 @@ theorem on_pool_thread (hr : PReach (pinit n maxq prog sched) s) :
 
 /-- no wake-up of a worker is lost: while the pool runs and a worker waits unsignalled, there are at
 least as many signalled workers on their way as there are queued tasks -/
-theorem no_lost_signal (hr : PReach (pinit n maxq prog sched) s) (hrun : s.running = true) (hW : s.ne.W ≠ []) :
+theorem no_lost_signal (hr : PReach (pinit n maxq kind prog sched) s) (hrun : s.running = true) (hW : s.ne.W ≠ []) :
     s.q.length ≤ s.ne.S.length :=
-  (pinv_reach (pinv_init n maxq prog sched) hr).a.sigE hrun hW
+  (pinv_reach (pinv_init n maxq kind prog sched) hr).a.sigE hrun hW
+
+/-- no wake-up of a producer is lost: while the pool runs and a producer waits unsignalled on the full queue, there
+are at least as many signalled producers on their way as there are free places -/
+theorem no_lost_signal_producer (hr : PReach (pinit n maxq kind prog sched) s) (hrun : s.running = true) (hm : 0 < s.maxq)
+    (hW : s.nf.W ≠ []) : s.maxq - s.q.length ≤ s.nf.S.length :=
+  (pinv_reach (pinv_init n maxq kind prog sched) hr).a.sigF hrun hm hW
+
+/-- no worker is inside a waiting task: the case when every task is plain or opens the gate, and the case of a
+state in which nobody can move while the gate is open -/
+theorem no_gated (hr : PReach (pinit n maxq kind prog sched) s)
+    (hg : (∀ id, kind id ≠ .waits) ∨ (PBlocked s ∧ s.gate = true)) (w : Nat) (x : Task) : s.pc w ≠ .wGate x := by
+  intro hw
+  rcases hg with hk | ⟨hb, hg⟩
+  · have h := pinv_reach (pinv_init n maxq kind prog sched) hr
+    have := h.gated w x hw
+    rw [preach_kind hr] at this
+    exact hk _ this
+  · exact body_wGate hw hg (hb w).2
 
 /-- exactly once unless stopped: in every reachable state in which no thread can take a step, every
-accepted task has been started (once, by `at_most_once`), or it is still queued and `stop()` has cleared
-the flag while it was queued -/
-theorem exactly_once_unless_stopped (hr : PReach (pinit n maxq prog sched) s) (hb : PBlocked s) (x : Task)
-    (hx : x ∈ acceptedOf s.log) : x ∈ execOf s.log ∨ (x ∈ s.q ∧ s.running = false) := by
-  have h := pinv_reach (pinv_init n maxq prog sched) hr
+accepted task has been started (once, by `at_most_once`), or it is still queued and either `stop()` has cleared
+the flag while it was queued, or **every** pool thread is inside a task that waits for the closed gate — as long
+as one worker is free, a queued task is taken up (a task may rely on a task accepted after it) -/
+theorem exactly_once_unless_stopped (hr : PReach (pinit n maxq kind prog sched) s) (hb : PBlocked s) (x : Task)
+    (hx : x ∈ acceptedOf s.log) :
+    x ∈ execOf s.log ∨ (x ∈ s.q ∧ (s.running = false ∨
+      (s.gate = false ∧ ∀ w, 1 ≤ w → w ≤ n → ∃ y, s.pc w = .wGate y))) := by
+  have h := pinv_reach (pinv_init n maxq kind prog sched) hr
   rw [← h.b.fifo, List.mem_append] at hx
   rcases hx with hx | hx
   · rcases h.b.tookDone x hx with h1 | ⟨w, hw⟩
@@ -76,24 +103,48 @@ theorem exactly_once_unless_stopped (hr : PReach (pinit n maxq prog sched) s) (h
   · right
     refine ⟨hx, ?_⟩
     cases hrun : s.running with
-    | false => rfl
+    | false => exact Or.inl rfl
     | true =>
-      exfalso
+      right
+      have hsn : s.n = n := (preach_const hr).1
       have hn : s.n ≠ 0 := by
         intro h0; have := h.noq h0; rw [this] at hx; cases hx
-      rcases p_blocked_worker h hb (w := 1) ⟨Nat.le_refl 1, by omega⟩ with h1 | ⟨_, h1⟩
-      · have := h.c.doneOff 1 h1; rw [hrun] at this; cases this
-      · have := h.a.sigE hrun (ne_nil_of_mem h1)
-        rw [(p_blocked_S h hb).1] at this
-        have hq : s.q = [] := List.eq_nil_of_length_eq_zero (by simpa using this)
-        rw [hq] at hx; cases hx
+      have key : ∀ w, 1 ≤ w → w ≤ n → (∃ y, s.pc w = .wGate y) ∧ s.gate = false := by
+        intro w hw1 hw2
+        rcases p_blocked_worker h hb (w := w) ⟨hw1, by omega⟩ with h1 | ⟨_, h1⟩ | h1
+        · have := h.c.doneOff w h1; rw [hrun] at this; cases this
+        · exfalso
+          have := h.a.sigE hrun (ne_nil_of_mem h1)
+          rw [(p_blocked_S h hb).1] at this
+          have hq : s.q = [] := List.eq_nil_of_length_eq_zero (by simpa using this)
+          rw [hq] at hx; cases hx
+        · exact h1
+      exact ⟨(key 1 (Nat.le_refl 1) (by omega)).2, fun w hw1 hw2 => (key w hw1 hw2).1⟩
+
+/-- `exactly_once_unless_stopped` for plain tasks, and whenever the gate is open: every accepted task has been
+started, or `stop()` has cleared the flag while it was still queued -/
+theorem exactly_once_unless_stopped_plain (hr : PReach (pinit n maxq kind prog sched) s) (hb : PBlocked s)
+    (hg : (∀ id, kind id ≠ .waits) ∨ s.gate = true) (x : Task) (hx : x ∈ acceptedOf s.log) :
+    x ∈ execOf s.log ∨ (x ∈ s.q ∧ s.running = false) := by
+  rcases exactly_once_unless_stopped hr hb x hx with h1 | ⟨h1, h2 | ⟨_, h2⟩⟩
+  · exact Or.inl h1
+  · exact Or.inr ⟨h1, h2⟩
+  · exfalso
+    have h := pinv_reach (pinv_init n maxq kind prog sched) hr
+    have hsn : s.n = n := (preach_const hr).1
+    have hn : n ≠ 0 := by
+      intro h0; have := h.noq (by rw [hsn]; exact h0); rw [this] at h1; cases h1
+    obtain ⟨y, hy⟩ := h2 1 (Nat.le_refl 1) (by omega)
+    exact no_gated hr (hg.imp id fun g => ⟨hb, g⟩) 1 y hy
 
 /-- `stop()` returns for every interleaving: once `stop()` has cleared the flag there is no reachable
 state in which somebody is left parked — idle workers, busy workers, producers blocked on a full queue and
-the thread inside `stop()` itself all run to completion -/
-theorem stop_returns (hr : PReach (pinit n maxq prog sched) s) (hb : PBlocked s) (hstop : s.running = false) (t : Nat) :
-    s.finished t := by
-  have h := pinv_reach (pinv_init n maxq prog sched) hr
+the thread inside `stop()` itself all run to completion; the only threads that can be left are a worker inside
+a task that waits for the closed gate, and the thread whose `stop()` is joining that worker -/
+theorem stop_returns (hr : PReach (pinit n maxq kind prog sched) s) (hb : PBlocked s) (hstop : s.running = false) (t : Nat) :
+    s.finished t ∨ ((∃ x, s.pc t = .wGate x) ∧ s.gate = false) ∨
+      (∃ i x, s.pc t = .stopJoin i ∧ s.pc (i + 1) = .wGate x ∧ s.gate = false) := by
+  have h := pinv_reach (pinv_init n maxq kind prog sched) hr
   have hown := p_blocked_owner h hb
   have hW : s.ne.W = [] ∧ s.nf.W = [] := by
     rcases h.a.stopped hstop with h1 | ⟨u, hu, _⟩
@@ -103,20 +154,27 @@ theorem stop_returns (hr : PReach (pinit n maxq prog sched) s) (hb : PBlocked s)
   have hnF : t ∉ s.nf.W := by rw [hW.2]; exact List.not_mem_nil
   unfold PState.finished
   cases hpc : s.pc t with
-  | wDone => exact Or.inl rfl
+  | wDone => exact Or.inl (Or.inl rfl)
   | wTest => exact absurd (hb t).2 (body_wTest hpc)
   | wExec x => exact absurd (hb t).2 (body_wExec hpc)
+  | wGate x =>
+    right; left
+    refine ⟨⟨x, rfl⟩, ?_⟩
+    cases hg : s.gate with
+    | false => rfl
+    | true => exact absurd (hb t).2 (body_wGate hpc hg)
   | wTake => exact absurd (hb t).1 (acq_enabled hown (by simp [PState.needsLock, hpc]) hnE hnF)
   | stopNotify => have := h.a.ownStop t hpc; rw [hown] at this; cases this
   | stopJoin i =>
-    exfalso
     obtain ⟨_, hi, _⟩ := h.c.join t i hpc
-    rcases p_blocked_worker h hb (w := i + 1) ⟨by omega, by omega⟩ with h1 | ⟨_, h1⟩
-    · have := (hb t).2
+    rcases p_blocked_worker h hb (w := i + 1) ⟨by omega, by omega⟩ with h1 | ⟨_, h1⟩ | ⟨⟨x, h1⟩, h2⟩
+    · exfalso
+      have := (hb t).2
       simp [pstep, hpc, h1] at this
     · rw [hW.1] at h1; cases h1
+    · exact Or.inr (Or.inr ⟨i, x, rfl, h1, h2⟩)
   | idle =>
-    right
+    left; right
     refine ⟨rfl, ?_⟩
     cases hp : s.prog t with
     | nil => rfl
@@ -124,21 +182,33 @@ theorem stop_returns (hr : PReach (pinit n maxq prog sched) s) (hb : PBlocked s)
       exfalso
       cases op with
       | stop => exact (acq_enabled hown (by simp [PState.needsLock, hpc, hp]) hnE hnF) (hb t).1
+      | «open» =>
+        have := (hb t).2
+        simp [pstep, hpc, hp] at this
       | run id =>
         by_cases hin : s.inline = true
         · have := (hb t).2
           simp [pstep, hpc, hp, hin] at this
         · exact (acq_enabled hown (by simp [PState.needsLock, hpc, hp, hin]) hnE hnF) (hb t).1
 
+/-- `stop_returns` for plain tasks, and whenever the gate is open: nobody at all is left parked -/
+theorem stop_returns_plain (hr : PReach (pinit n maxq kind prog sched) s) (hb : PBlocked s) (hstop : s.running = false)
+    (hg : (∀ id, kind id ≠ .waits) ∨ s.gate = true) (t : Nat) : s.finished t := by
+  have hng := no_gated hr (hg.imp id fun g => ⟨hb, g⟩)
+  rcases stop_returns hr hb hstop t with h1 | ⟨⟨x, h1⟩, _⟩ | ⟨i, x, _, h1, _⟩
+  · exact h1
+  · exact absurd h1 (hng t x)
+  · exact absurd h1 (hng (i + 1) x)
+
 /-- after `stop()` has returned on a pool that has threads, no step starts a task and no `run()`
 enqueues or executes anything -/
-theorem quiet_after_stop (hr : PReach (pinit n maxq prog sched) s) (hn : 0 < n) (hret : ∃ t, PEv.stopRet t ∈ s.log)
+theorem quiet_after_stop (hr : PReach (pinit n maxq kind prog sched) s) (hn : 0 < n) (hret : ∃ t, PEv.stopRet t ∈ s.log)
     {a : Act} {s' : PState} (hs : pstep s a = some s') :
     execOf s'.log = execOf s.log ∧ acceptedOf s'.log = acceptedOf s.log ∧ ∀ t id, PEv.inl t id ∉ s'.log := by
-  have h := pinv_reach (pinv_init n maxq prog sched) hr
+  have h := pinv_reach (pinv_init n maxq kind prog sched) hr
   have hsn : s.n = n := (preach_const hr).1
   obtain ⟨hoff, hdone⟩ := h.c.quiet hret (by rw [hsn]; exact hn)
-  have hr' : PReach (pinit n maxq prog sched) s' := .step a hr hs
+  have hr' : PReach (pinit n maxq kind prog sched) s' := .step a hr hs
   have hinl : ∀ t id, PEv.inl t id ∉ s'.log := by
     intro t id hx
     have := (on_pool_thread hr').2 t id hx
@@ -160,7 +230,9 @@ theorem quiet_after_stop (hr : PReach (pinit n maxq prog sched) s) (hn : 0 < n) 
     | takePark t S' hpc ho hS hq hr => exact ⟨rfl, rfl⟩
     | takeNone t S' hpc ho hS hq hr => exact ⟨rfl, rfl⟩
     | takeSome t S' x q' hpc ho hS hq => have := hnw t (by rw [hpc]; rfl); rw [hpc] at this; cases this
-    | exec t x hpc => have := hnw t (by rw [hpc]; rfl); rw [hpc] at this; cases this
+    | exec t x p g hpc hp => have := hnw t (by rw [hpc]; rfl); rw [hpc] at this; cases this
+    | pass t x hpc hg => have := hnw t (by rw [hpc]; rfl); rw [hpc] at this; cases this
+    | openGate t rest hpc hp => exact hplain (evs := [.openRet t]) (by simp [PEv.plain])
     | runInline t id rest hpc hp hn0 => exact hplain (evs := [.inl t id, .runRet t id]) (by simp [PEv.plain])
     | runPark t id rest S' hpc hp hn0 ho hS hfull hr => exact ⟨rfl, rfl⟩
     | runStopped t id rest S' hpc hp hn0 ho hS hr => exact hplain (evs := [.runRet t id]) (by simp [PEv.plain])
@@ -176,14 +248,14 @@ theorem quiet_after_stop (hr : PReach (pinit n maxq prog sched) s) (hn : 0 < n) 
 
 /-- a run in which back-pressure, execution, a task dropped by `stop()` and the join all occur; its final
 state satisfies the hypotheses of `exactly_once_unless_stopped`, `stop_returns` and `quiet_after_stop` -/
-example : ∃ s, PReach (pinit 1 1 demoPool []) s ∧ PBlocked s ∧ s.running = false ∧
+example : ∃ s, PReach (pinit 1 1 (fun _ => .plain) demoPool []) s ∧ PBlocked s ∧ s.running = false ∧
     execOf s.log = [(0, 7)] ∧ acceptedOf s.log = [(0, 7), (1, 8)] ∧ s.q = [(1, 8)] ∧ (∃ t, PEv.stopRet t ∈ s.log) := by
-  have h : ((runP (pinit 1 1 demoPool []) demoPoolActs).map fun s =>
+  have h : ((runP (pinit 1 1 (fun _ => .plain) demoPool []) demoPoolActs).map fun s =>
       (s.pc 1, s.pc 2, s.prog 2, s.running)) = some (.wDone, .idle, [], false) := by decide +kernel
-  have h' : ((runP (pinit 1 1 demoPool []) demoPoolActs).map fun s =>
+  have h' : ((runP (pinit 1 1 (fun _ => .plain) demoPool []) demoPoolActs).map fun s =>
       (execOf s.log, acceptedOf s.log, s.q, decide (PEv.stopRet 2 ∈ s.log))) =
       some ([(0, 7)], [(0, 7), (1, 8)], [(1, 8)], true) := by decide +kernel
-  cases hr : runP (pinit 1 1 demoPool []) demoPoolActs with
+  cases hr : runP (pinit 1 1 (fun _ => .plain) demoPool []) demoPoolActs with
   | none => rw [hr] at h; cases h
   | some s =>
     rw [hr] at h h'
@@ -204,5 +276,41 @@ example : ∃ s, PReach (pinit 1 1 demoPool []) s ∧ PBlocked s ∧ s.running =
             · exact absurd rfl ht2
             · rfl
           simp [pinit, this]
+
+/-- a run with dependent tasks: task 7 makes worker 1 wait at the gate, task 8 — accepted later, taken up by the
+free worker 2 — opens it; both complete, then the pool is stopped and everybody finishes (the hypotheses of
+`stop_returns_plain` with the gate open) -/
+example : ∃ s, PReach (pinit 2 0 demoDepKind demoDep []) s ∧ PBlocked s ∧ s.running = false ∧ s.gate = true ∧
+    execOf s.log = [(0, 7), (1, 8)] ∧ PEv.pass 1 (0, 7) ∈ s.log := by
+  have h : ((runP (pinit 2 0 demoDepKind demoDep []) demoDepActs).map fun s =>
+      (s.pc 1, s.pc 2, s.pc 3, s.prog 3)) = some (.wDone, .wDone, .idle, []) := by decide +kernel
+  have h'' : ((runP (pinit 2 0 demoDepKind demoDep []) demoDepActs).map fun s =>
+      (s.running, s.gate)) = some (false, true) := by decide +kernel
+  have h' : ((runP (pinit 2 0 demoDepKind demoDep []) demoDepActs).map fun s =>
+      (execOf s.log, decide (PEv.pass 1 (0, 7) ∈ s.log))) = some ([(0, 7), (1, 8)], true) := by decide +kernel
+  cases hr : runP (pinit 2 0 demoDepKind demoDep []) demoDepActs with
+  | none => rw [hr] at h; cases h
+  | some s =>
+    rw [hr] at h h' h''
+    simp only [Option.map_some, Option.some.injEq, Prod.mk.injEq, decide_eq_true_eq] at h h' h''
+    obtain ⟨h1, h2, h3, h4⟩ := h
+    obtain ⟨h5, h6⟩ := h''
+    obtain ⟨h7, h8⟩ := h'
+    have hreach := runP_reach hr
+    refine ⟨s, hreach, blocked_of_finished ?_, h5, h6, h7, h8⟩
+    intro t
+    by_cases ht1 : t = 1
+    · subst ht1; exact Or.inl h1
+    · by_cases ht2 : t = 2
+      · subst ht2; exact Or.inl h2
+      · by_cases ht3 : t = 3
+        · subst ht3; exact Or.inr ⟨h3, h4⟩
+        · refine finished_reach hreach (Or.inr ⟨?_, ?_⟩)
+          · simp [pinit]; omega
+          · have : demoDep t = [] := by
+              unfold demoDep; split
+              · exact absurd rfl ht3
+              · rfl
+            simp [pinit, this]
 
 end MuduoVerif.C15
